@@ -85,10 +85,51 @@ def _class_names(t: ast.expr | None) -> list[str]:
             out += _class_names(e)
         return out
     if isinstance(t, ast.Name):
-        return [t.id]
+        return _expand(t.id)
     if isinstance(t, ast.Attribute):
-        return [t.attr]
+        return _expand(t.attr)
     raise Unrecognised(f"except clause type {ast.unparse(t)}")
+
+
+_TUPLE_MODULES = (
+    "vgi_rpc.http.server._responses",
+    "vgi_rpc.http.server._app_unary",
+    "vgi_rpc.http.server._app_stream",
+    "vgi_rpc.http._common",
+    "vgi_rpc.rpc._server",
+    "vgi_rpc.rpc._wire",
+    "vgi_rpc.rpc._common",
+)
+
+
+def _expand(name: str) -> list[str]:
+    """A name in an `except` clause: an exception class, or a module-level tuple of exception classes (e.g.
+    `_BAD_REQUEST_ERRORS`), which is expanded to its members (the tuple object of the imported module is read, so
+    `(*OTHER, TypeError, …)` definitions are followed)."""
+    import importlib
+
+    try:
+        _resolve(name)
+        return [name]
+    except Unrecognised:
+        pass
+    for mn in _TUPLE_MODULES:
+        try:
+            mod = importlib.import_module(mn)
+        except ImportError:
+            continue
+        if not str(Path(mod.__file__ or "").resolve()).startswith(str(REPO.resolve())):
+            raise Unrecognised(f"{mn} was imported from {mod.__file__}, not from {REPO}: run with PYTHONPATH=$VERIF_REPO")
+        v = getattr(mod, name, None)
+        if isinstance(v, tuple) and v and all(isinstance(k, type) and issubclass(k, BaseException) for k in v):
+            out: list[str] = []
+            for k in v:
+                if _resolve(k.__name__) is not k:
+                    raise Unrecognised(f"{name}: member {k!r} does not resolve by its name")
+                if k.__name__ not in out:
+                    out.append(k.__name__)
+            return out
+    raise Unrecognised(f"exception class {name}")
 
 
 def _status_of(expr: ast.expr, body: list[ast.stmt]) -> int:
